@@ -679,6 +679,18 @@ func ruleHashShape(c *Ctx, r *Rep) {
 				if isMod {
 					vis := f.Exported() && strings.Split(tag, ",")[0] != "-"
 					r.Check(vis, key, c.Pos(f.Pos()), "exported and not json:\"-\" (the hash must see it)", sprintf("exported=%v tag=%q", f.Exported(), tag))
+					// omitempty writes an empty list and an absent one alike: two configurations that differ in exactly
+					// that would hash alike and compare as identical JSON in the merge
+					for _, opt := range strings.Split(tag, ",")[1:] {
+						nilable := false
+						switch f.Type().Underlying().(type) {
+						case *types.Slice, *types.Map, *types.Pointer, *types.Interface:
+							nilable = true // nil and empty are two values that omitempty writes alike
+						}
+						if opt == "omitempty" && nilable {
+							r.Bad("no-omitempty|"+path+"."+f.Name(), c.Pos(f.Pos()), "every value of a hashed field has its own JSON form (no omitempty)", sprintf("tag %q", tag))
+						}
+					}
 				}
 				if f.Exported() {
 					walk(f.Type(), path+"."+f.Name(), depth+1)
